@@ -47,6 +47,16 @@ let run () = iter_lines (fun line ->
          end
        end
      | _ -> report "BAD" "regex line" line)
+  | 'z', [e; res] ->
+    (* the preparation of a regex expression, character for character (what does not compile afterwards is not observable) *)
+    let et = text_of_hex e in
+    let m = regex_prepare et in
+    bump (if res = "err" then "prepare:does-not-compile" else if m = et then "prepare:unchanged" else "prepare:changed");
+    if res = "panic" then report "SPEC:C04" "making a regex rule panicked" line
+    else if res <> "err" then begin
+      let impl = text_of_hex (String.sub res 1 (String.length res - 1)) in
+      if impl <> m then report "DIFF:regex-prepare" "the prepared regex expression differs from the model's" line
+    end
   | 'g', [p; ln; res; cres] ->
     let p = text_of_hex p in
     (match split_on ' ' ln with
